@@ -47,14 +47,14 @@ type c15Expect struct {
 
 // c15Reference computes, per kind, the expected entries from the catalog model.
 func c15Reference(c *catalog, withTarget bool, down map[string]string) map[string]*c15Expect {
-	tt := c.nowTT()
+	tt := c.NowTT()
 	out := map[string]*c15Expect{}
 	for _, k := range []string{util.DroppedDatabaseKey, util.DroppedCollectionKey, util.DroppedPartitionKey} {
 		out[k] = &c15Expect{exact: map[string]uint64{}, below: map[string]uint64{}, floor: map[string]uint64{}}
 	}
 	// the downstream name of the database a collection incarnation belongs to ("" = not resolvable -> ignored)
 	dbNameOf := func(x *catColl) string {
-		d := c.db(x.DB)
+		d := c.Db(x.DB)
 		if d.State == "live" {
 			return d.Name
 		}
@@ -149,7 +149,7 @@ func c15Reference(c *catalog, withTarget bool, down map[string]string) map[strin
 
 func c15Check(c *catalog, withTarget bool, down map[string]string) (viol string, outcome string) {
 	fe := fakeetcd.New()
-	c.write(fe)
+	c.Write(fe)
 	var op *EtcdOp
 	if withTarget {
 		op = newVerifEtcdOp(fe, &c15Target{down: down})
@@ -248,7 +248,7 @@ func TestVerifC15Snapshot(t *testing.T) {
 	res.Rule = "BFS over histories of legal root-coord operations {create/drop database db1; per (db in {default, db1}, collection name): create / begin-create / finish-create / abort-create / drop(->dropping) / dropped / gc(->tombstone) collection, create / drop / gc partition p} with increasing hybrid timestamps; catalogs deduplicated on content; each catalog written to fakeetcd and read by the real EtcdOp.GetAllDroppedObj for downstream in {Milvus fake knowing / not knowing the collection names of databases gone upstream, none (Kafka)}; every entry compared with the model's expectation; non-trivial = catalogs with at least one dropped incarnation visible"
 	ops := c15Ops(ev.Thorough())
 	deadline := time.Now().Add(ev.Budget(150 * time.Second))
-	seen := map[string]bool{newCatalog().canon(): true}
+	seen := map[string]bool{newCatalog().Canon(): true}
 	frontier := [][]catOp{nil}
 	res.States = 1
 	nontriv := 0
@@ -270,7 +270,7 @@ func TestVerifC15Snapshot(t *testing.T) {
 					continue
 				}
 				res.Transitions++
-				k := c.canon()
+				k := c.Canon()
 				if seen[k] {
 					continue
 				}
